@@ -1,9 +1,10 @@
 import Driver.L0Packet
 import Driver.L0Update
+import Driver.L0Server
 /-! Line-protocol loop of the L0 differential driver. -/
 namespace Driver
 
-def handlers : List (String × Handler) := packetHandlers ++ updateHandlers
+def handlers : List (String × Handler) := packetHandlers ++ updateHandlers ++ serverHandlers
 
 /-- `fn a1 a2 … => result` -/
 def processLine (line : String) : String :=
